@@ -122,13 +122,45 @@ pub fn run_case(case: &Case, rng: &mut Option<StdRng>) -> Outcome {
                 let n = *case.ops.get(&name).unwrap_or(&0) as i64;
                 let ii = i as i64;
                 let id = sch.spawn(&name, move |ctx| {
-                    for k in 1..=n {
-                        let v = ii * 100 + k;
-                        ctx.note("send_begin", &[v]);
-                        match sched::block_on(&ctx, tx.send(v)) {
-                            Ok(Ok(())) => ctx.note("send_ok", &[v]),
-                            Ok(Err(_)) => {
-                                ctx.note("send_err", &[v]);
+                    // the handle is dropped explicitly and never during unwinding: a panic in the code
+                    // under test (send or Drop) must stay a catchable observation, not a process abort
+                    let mut tx = std::mem::ManuallyDrop::new(tx);
+                    let r1 = std::panic::catch_unwind(std::panic::AssertUnwindSafe(|| {
+                        for k in 1..=n {
+                            let v = ii * 100 + k;
+                            ctx.note("send_begin", &[v]);
+                            match sched::block_on(&ctx, tx.send(v)) {
+                                Ok(Ok(())) => ctx.note("send_ok", &[v]),
+                                Ok(Err(_)) => {
+                                    ctx.note("send_err", &[v]);
+                                    break;
+                                }
+                                Err(_) => {
+                                    ctx.note("tool_err", &[]);
+                                    break;
+                                }
+                            }
+                        }
+                    }));
+                    ctx.note("sdrop_begin", &[]);
+                    let r2 = std::panic::catch_unwind(std::panic::AssertUnwindSafe(|| unsafe { std::mem::ManuallyDrop::drop(&mut tx) }));
+                    if let Err(e) = r1.and(r2) {
+                        std::panic::resume_unwind(e);
+                    }
+                });
+                idx.insert(name.clone(), id);
+                order.push(name);
+            }
+            let name = pname('r', g, c, 0);
+            let n = *case.ops.get(&name).unwrap_or(&0);
+            let id = sch.spawn(&name, move |ctx| {
+                let mut rx = std::mem::ManuallyDrop::new(rx);
+                let r1 = std::panic::catch_unwind(std::panic::AssertUnwindSafe(|| {
+                    for _ in 0..n {
+                        match sched::block_on(&ctx, rx.recv()) {
+                            Ok(Some(v)) => ctx.note("got", &[v]),
+                            Ok(None) => {
+                                ctx.note("none", &[]);
                                 break;
                             }
                             Err(_) => {
@@ -137,31 +169,12 @@ pub fn run_case(case: &Case, rng: &mut Option<StdRng>) -> Outcome {
                             }
                         }
                     }
-                    ctx.note("sdrop_begin", &[]);
-                    drop(tx);
-                });
-                idx.insert(name.clone(), id);
-                order.push(name);
-            }
-            let name = pname('r', g, c, 0);
-            let n = *case.ops.get(&name).unwrap_or(&0);
-            let mut rx = rx;
-            let id = sch.spawn(&name, move |ctx| {
-                for _ in 0..n {
-                    match sched::block_on(&ctx, rx.recv()) {
-                        Ok(Some(v)) => ctx.note("got", &[v]),
-                        Ok(None) => {
-                            ctx.note("none", &[]);
-                            break;
-                        }
-                        Err(_) => {
-                            ctx.note("tool_err", &[]);
-                            break;
-                        }
-                    }
-                }
+                }));
                 ctx.note("rdrop_begin", &[]);
-                drop(rx);
+                let r2 = std::panic::catch_unwind(std::panic::AssertUnwindSafe(|| unsafe { std::mem::ManuallyDrop::drop(&mut rx) }));
+                if let Err(e) = r1.and(r2) {
+                    std::panic::resume_unwind(e);
+                }
             });
             idx.insert(name.clone(), id);
             order.push(name);
